@@ -268,24 +268,33 @@ def r4(ctx, R):
                         "the destination directly", stmt="%s: %s" % (f.short, norm(n)))
             continue
         pm = f.pm
-        st = n
-        while not isinstance(st, ast.stmt):
-            st = pm[st]
-        ok = False
-        # (a) deriving temp names
-        if isinstance(st, ast.Assign) and all(isinstance(t, ast.Attribute) and t.attr in ("temp_root", "work_dir")
-                                              for t in st.targets):
+
+        def use_ok(n):
+            st = n
+            while not isinstance(st, ast.stmt):
+                st = pm[st]
+            # (a) deriving temp names
+            if isinstance(st, ast.Assign) and all(isinstance(t, ast.Attribute) and t.attr in ("temp_root", "work_dir")
+                                                  for t in st.targets):
+                par = pm[n]
+                if isinstance(par, ast.Attribute) and par.attr in ("name", "stem"):
+                    return True
+            # (b) existence / directory test, error message
             par = pm[n]
-            if isinstance(par, ast.Attribute) and par.attr in ("name", "stem"):
-                ok = True
-        # (b) existence / directory test, error message
-        par = pm[n]
-        if isinstance(par, ast.Attribute) and par.attr in ("exists", "is_dir", "is_file", "name"):
-            if isinstance(st, (ast.If, ast.Raise)) or (isinstance(st, ast.Expr) is False and par.attr == "name" and isinstance(st, ast.Raise)):
-                ok = True
-        # (c) destination of the move
-        if isinstance(par, ast.Call) and par is move and len(move.args) == 2 and move.args[1] is n:
-            ok = True
+            if isinstance(par, ast.Attribute) and par.attr in ("exists", "is_dir", "is_file", "name"):
+                if isinstance(st, (ast.If, ast.Raise)):
+                    return True
+            # (c) destination of the move
+            if isinstance(par, ast.Call) and par is move and len(move.args) == 2 and move.args[1] is n:
+                return True
+            # (d) a plain local alias of the path: every use of the alias must be one of the above
+            if isinstance(st, ast.Assign) and st.value is n and len(st.targets) == 1 and isinstance(st.targets[0], ast.Name) \
+                    and st.targets[0].id in q.single_defs(f):
+                v = st.targets[0].id
+                uses = [x for x in walk_local(f.node) if isinstance(x, ast.Name) and x.id == v and isinstance(x.ctx, ast.Load)]
+                return all(use_ok(u) for u in uses)
+            return False
+        ok = use_ok(n)
         if not ok:
             R.bad(f, n, "ModelWriter.root used for something other than naming the temporary root, "
                         "the directory test or the final move", stmt=norm(st))
